@@ -556,9 +556,15 @@ def _sift_with_noise(X, noise_scaling=None, noise=None, noise_mode='single',
         return imf
     elif noise_mode == 'flip':
         ensX = X.copy() - noise
-        imf += sift(ensX, sift_thresh=sift_thresh, max_imfs=max_imfs,
-                    imf_opts=imf_opts, envelope_opts=envelope_opts, extrema_opts=extrema_opts)
-        return imf / 2
+        imf_flip = sift(ensX, sift_thresh=sift_thresh, max_imfs=max_imfs,
+                        imf_opts=imf_opts, envelope_opts=envelope_opts, extrema_opts=extrema_opts)
+        # The two runs can find different numbers of IMFs - a mode missing from
+        # the shorter decomposition counts as zero in the average.
+        nimfs = max(imf.shape[1], imf_flip.shape[1])
+        imf_sum = np.zeros((imf.shape[0], nimfs))
+        imf_sum[:, :imf.shape[1]] += imf
+        imf_sum[:, :imf_flip.shape[1]] += imf_flip
+        return imf_sum / 2
 
 
 # Implementation
